@@ -1,6 +1,6 @@
 """C04 — relocation: dispatch and completeness clauses (DESIGN.md section 3 / C04)."""
 import re
-from lib import cfg, core, pcrel
+from lib import cfg, core, pcrel, relocrules
 from lib.must import Must
 
 UNIT = "asmjit/core/codeholder.cpp"
@@ -217,6 +217,14 @@ def run(chk):
     # ---------------------------------------------------------------- shared: pc-relative displacement vs trailing immediate
     fx = chk.facts("asmjit/x86/x86assembler.cpp", funcs=r"x86::Assembler::_emit$")
     pcrel.run(chk, cfg.find_fn(fx, "x86::Assembler::_emit"), "asmjit/x86/x86assembler.cpp")
+
+    # ---------------------------------------------------------------- rules added after the second round of seeded changes
+    emitters = []
+    for unit, rex in SITES:
+        emitters += cfg.load_functions(chk.facts(unit, funcs=rex))
+    relocrules.target_pair(chk, emitters)
+    relocrules.payload_live(chk, emitters)
+    relocrules.src_address(chk, rb)
 
     return chk.finish(
         level="other",
